@@ -200,6 +200,16 @@ func runC19(e *Env) error {
 		h := hashing.Hash(msg)
 		e.Add(Case{Coq: fmt.Sprintf("CSha %s %s", CoqBytes(msg), CoqBytes(h[:])), Kind: "sha256", NonTrivial: ln > 0, JSON: map[string]interface{}{"fn": "hashing.Hash", "len": ln}})
 	}
+	// the re-usable hash object (GetHashFn / Sha256Repeat): ONE object hashes a sequence of messages of growing and
+	// shrinking length; every answer must be the SHA-256 of its own input, independent of the calls before it
+	rep, rep2 := hashing.GetHashFn(), hashing.Sha256Repeat()
+	for _, ln := range []int{64, 0, 65, 1, 32, 32, 119, 3, 64, 64, 200, 31, 56, 55, 0} {
+		msg := r.Bytes(ln)
+		h := rep(msg)
+		e.Add(Case{Coq: fmt.Sprintf("CSha %s %s", CoqBytes(msg), CoqBytes(h[:])), Kind: "sha256_repeat", NonTrivial: true, JSON: map[string]interface{}{"fn": "hashing.GetHashFn()(msg), same object as the previous case", "len": ln}})
+		h2 := rep2(msg)
+		e.Add(Case{Coq: fmt.Sprintf("CSha %s %s", CoqBytes(msg), CoqBytes(h2[:])), Kind: "sha256_repeat", NonTrivial: true, JSON: map[string]interface{}{"fn": "hashing.Sha256Repeat()(msg), same object as the previous case", "len": ln}})
+	}
 	// Merkle branches
 	nm := e.N(120, 1500)
 	for i := 0; i < nm; i++ {
